@@ -5,7 +5,31 @@ import os
 VERIF = os.path.abspath(os.path.join(os.path.dirname(os.path.abspath(__file__)), '..'))
 
 # --------------------------------------------------------------------------- TLC engines
-ENGINES = {}
+CORE_OPS = {"new", "clone", "clonef", "drop", "set", "clear", "mark", "collect", "unwrap", "fagain"}
+BASE = dict(N=3, NS=2, NP=0, NW=0, FIN=True, WEAK=True, DBG=True, MAXRC=100, MaxRoots=2, MaxWRoots=0,
+            MaxOps=6, MaxFaults=0, MaxTraceK=0, BUG_STALE_TC=False, BUG_NESTED_FLAGS=False, OPS=CORE_OPS)
+
+
+def _eng(name, quick, thorough, builds, **kw):
+    q = dict(BASE); q.update(quick)
+    t = dict(BASE); t.update(quick); t.update(thorough)
+    e = {'module': 'CcImpl.tla', 'cfg': {'quick': 'MC_%s_quick.cfg' % name, 'thorough': 'MC_%s_thorough.cfg' % name},
+         'consts': {'quick': q, 'thorough': t}, 'builds': builds}
+    e.update(kw)
+    return e
+
+
+ENGINES = {
+    # all histories of the core API over 3 objects with 2 traced fields
+    'core': _eng('core', dict(MaxOps=6), dict(MaxOps=7), {'quick': ['all-dev'], 'thorough': ['all-dev', 'all-rel', 'default-dev', 'noauto-rel']}),
+    # an untraced (pinning) field next to a traced one
+    'pin': _eng('pin', dict(NS=1, NP=1, MaxOps=5), dict(MaxOps=7), {'quick': ['all-dev'], 'thorough': ['all-dev', 'all-rel']}),
+    # finalization disabled
+    'nofin': _eng('nofin', dict(FIN=False, MaxOps=5, OPS=CORE_OPS - {"fagain"}), dict(MaxOps=7), {'quick': ['nofin-rel'], 'thorough': ['nofin-dev', 'nofin-rel']}),
+    # one injected panic at every callback invocation (trace k-th, finalize, drop)
+    'fault': _eng('fault', dict(MaxOps=6, MaxFaults=1, MaxTraceK=3, N=3), dict(MaxOps=7), {'quick': ['all-dev'], 'thorough': ['all-dev', 'all-rel']}),
+    'faultnofin': _eng('faultnofin', dict(FIN=False, MaxOps=5, MaxFaults=1, MaxTraceK=3, OPS=CORE_OPS - {"fagain"}), dict(MaxOps=7), {'quick': ['nofin-rel'], 'thorough': ['nofin-dev', 'nofin-rel']}),
+}
 
 
 def _random(variant, seed, runs, ops, **kw):
@@ -34,9 +58,16 @@ def graph_conformance(tier, seed):
 GRAPH_PROPS = ['C01', 'C02', 'C03', 'C04', 'C05', 'C06', 'C07', 'C08', 'C09', 'C11', 'C12', 'C13']
 
 
+GRAPH_ENGINES = ['core', 'pin', 'nofin', 'fault', 'faultnofin']
+
+
 def plan(pid, tier, seed):
     if pid in GRAPH_PROPS:
-        return {'engines': [], 'conformance': graph_conformance(tier, seed)}
+        conf = []
+        for en in GRAPH_ENGINES:
+            for b in ENGINES[en]['builds'][tier]:
+                conf.append({'kind': 'replay', 'variant': b, 'engine': en})
+        return {'engines': list(GRAPH_ENGINES), 'conformance': conf + graph_conformance(tier, seed)}
     raise SystemExit('no plan for property %s' % pid)
 
 
